@@ -46,17 +46,20 @@ class MdPlugin():
 
     def write(self, synthdef, path):  # Was *write_metadata.
         path = pathlib.Path(path) / f'{synthdef.name}.{self.SUFFIX}'
-        try:
-            path.unlink()
-        except FileNotFoundError:
-            pass
+        data = None
         if synthdef.metadata:
             metadata = synthdef.metadata.copy()
             for key in self.codec:
                 if key in metadata:
                     metadata[key] = self.codec[key].encoder(metadata[key])
+            data = json.dumps(metadata)  # Before the old file is removed.
+        try:
+            path.unlink()
+        except FileNotFoundError:
+            pass
+        if data is not None:
             with open(path, 'w') as file:
-                json.dump(metadata, file)
+                file.write(data)
 
     def read(self, synthdef, path):  # Was *read_metadata.
         path = pathlib.Path(path) / f'{synthdef.name}.{self.SUFFIX}'
